@@ -18,15 +18,19 @@ def setFixed : List String := [
 /-- the tree the model has to follow: `Model.WireStack.tstep treeFixed` -/
 def treeFixed : Bool := setOutputBufferWriter == setFixed
 
-/-- `UpgradeTLS` on /repo d6aa4e3 (F30): `c.flateWriter` is left alone -/
+/-- `UpgradeTLS` on /repo d6aa4e3 (F30): `c.flateWriter` is left alone. (The spec matches every statement that
+mentions `nil`, so a guard around one of these assignments — `if c.tlsConn == nil { c.flateWriter = nil }`, mutation
+R11-A — changes the list.) -/
 def tlsF30 : List String := [
   "assign tlsConn := tls.Server(c.Conn, c.nsqd.tlsConfig)",
+  "if err != nil",
   "assign c.outputDest = c.tlsConn",
   "assign c.Writer = bufio.NewWriterSize(c.tlsConn, c.OutputBufferSize)"]
 
 /-- `UpgradeTLS` with F30b: the flate writer of an earlier IDENTIFY is dropped before the new writer is installed -/
 def tlsF30b : List String := [
   "assign tlsConn := tls.Server(c.Conn, c.nsqd.tlsConfig)",
+  "if err != nil",
   "assign c.flateWriter = nil",
   "assign c.outputDest = c.tlsConn",
   "assign c.Writer = bufio.NewWriterSize(c.tlsConn, c.OutputBufferSize)"]
